@@ -317,9 +317,19 @@ def check_write_all(ctx):
     # a skip decided on clocks / times: the master changes a status (DONE ->
     # WAITING -> SKIPPED when a dependency is re-run and fails) without
     # touching the clocks, so "did not run since" does not mean "unchanged"
+    def guard_text(test):
+        # the guard and the bodies of the module helpers it calls
+        out = txt(test)
+        for sub in ast.walk(test):
+            if isinstance(sub, ast.Call):
+                cands, how = program.resolve_call(func, sub)
+                if how != 'by-unique-name':
+                    for cand in cands[:2]:
+                        out += ' ' + ast.unparse(cand.node)
+        return out
     clocky = [g for g in guards if g not in bad and any(
-        word in txt(g) for word in ('clock', 'since', 'time', 'mtime',
-                                    'st_mtime'))]
+        word in guard_text(g) for word in ('clock', 'since', 'mtime',
+                                           'st_mtime', 'time.time'))]
     for test in clocky:
         ctx.violated('WRITE-ALL', func, f'write_env: writing skipped on a '
                      f'clock: `{txt(test)[:60]}`', at=func.where(test),
